@@ -112,6 +112,7 @@ type Result struct {
 type Run struct {
 	prog     *Program
 	cfg      *HarnessCfg
+	buildMu  sync.Mutex // serialises lazy SSA builds of library packages
 	mu       sync.Mutex
 	cond     *sync.Cond
 	work     []workItem
@@ -144,6 +145,7 @@ type HarnessCfg struct {
 }
 
 type interpreter struct {
+	stdDepth int // > 0 while the SSA body of a library function is being interpreted
 	prog    *ssa.Program
 	P       *Program
 	globals map[*ssa.Global]*value
